@@ -61,7 +61,7 @@ func (h *hashRanges) addElement(elHash uint64) {
 		rng.elements++
 	}
 	h.dirty[rng] = struct{}{}
-	if rng.elements > h.compareThreshold {
+	if rng.elements > h.compareThreshold && canDivide(rng.from, rng.to, h.divideFactor) {
 		rng.isDivided = true
 		h.makeBottomRanges(rng)
 	}
@@ -159,7 +159,7 @@ func (h *hashRanges) makeBottomRanges(rng *hashRange) {
 	for _, tuple := range ranges {
 		newRange := h.makeRange(tuple, rng)
 		h.ranges[tuple] = newRange
-		if newRange.elements > h.compareThreshold {
+		if newRange.elements > h.compareThreshold && canDivide(newRange.from, newRange.to, h.divideFactor) {
 			if _, ok := h.dirty[rng]; ok {
 				delete(h.dirty, rng)
 			}
@@ -194,6 +194,13 @@ func (h *hashRanges) calcDividedHash(rng *hashRange) (hash []byte) {
 	}
 	hash = hasher.Sum(nil)
 	return
+}
+
+// canDivide reports whether the range holds at least divideFactor hash values, so that
+// genTupleRanges gives divideFactor non-empty parts. A narrower range is never divided: it keeps
+// its elements however many they are.
+func canDivide(from, to uint64, divideFactor int) bool {
+	return to-from >= uint64(divideFactor)-1
 }
 
 func genTupleRanges(from, to uint64, divideFactor int) (prepare []rangeTuple) {
